@@ -20,20 +20,30 @@ META = {
             "cipher.Validate, router) overlapping Blacklist/Delete/Flush/cache purges - with the lookup parked at its audit "
             "update behind a held SQLite write lock, in free-running pairs, and in storms - and checks at the quiescent "
             "point (all goroutines joined) that repeated fresh validations agree with the table: revoked => rejected, "
-            "not revoked => accepted.",
+            "not revoked => accepted. The router's TokenCache write-back against a concurrent Blacklist is exercised "
+            "deterministically: the router validation is parked at the AUTH log line between its revocation lookup and "
+            "its cache write (log output to a full pipe) while Blacklist runs to completion (class "
+            "conc-router-cache-after-purge; repaired by fixes/C21-2.patch: write back first, look at the revocation "
+            "list once more, take a revoked token out again - the model mirrors the repaired code).",
     "note": "trusted: Lean kernel; the correspondence harness; encoding/hex (decides 'unaltered': a hex-case change "
             "is the same token). Crypto enters as the parameter dec with hypothesis AEAD (a string decrypts iff its "
             "bytes are those sealed under the current key) - C27 is about the framing; the harness tests AEAD on every "
             "single-byte substitution position (all non-hex bytes; a sample of byte-changing hex digits in quick, "
             ">= 2 per position and all 15 on the framing bytes in thorough), deletions, insertions, truncations. "
             "Expiry is `time.Since(Expires) > 0`: a token is still accepted AT its Expires instant. The router "
-            "authenticates only tokens with a non-empty Name (explicit conjunct in the theorem). Out of scope: "
-            "concurrent histories (add-after-purge interleavings), a remote authority, SQLite errors, a server with no "
+            "authenticates only tokens with a non-empty Name (explicit conjunct in the theorem). Concurrent "
+            "histories are outside the theorems (the model is sequential): they are searched by the concurrent stream, "
+            "which judges quiescent points only (a verdict obtained during an overlap may linearise either way). "
+            "Why the repaired write-back is right under concurrency is an argument, not a theorem: Blacklist inserts "
+            "and purges TokenCache under the revocation list's mutex, the router's second lookup takes the same mutex "
+            "after its cache Add, so it either follows the whole Blacklist (sees the row, removes the entry) or precedes "
+            "its purge (which removes the entry). Out of scope: a remote authority, SQLite errors, a server with no "
             "blacklist database (Blacklist is then a documented no-op: the list is always empty). The token key is "
             "fixed while the server runs (ego.server.token.key is in defs.ReadonlySetting; a key change would not "
             "purge TokenCache).",
     "technique": "Lean 4 proof (invariant over all op lists) + model/implementation correspondence under synctest "
-                 "+ concurrent quiescent-point oracle (real goroutines, SQLite write lock held to widen the window)",
+                 "+ concurrent quiescent-point oracle (real goroutines; SQLite write lock / stalled log consumer held to "
+                 "widen the windows)",
     "design_ref": "DESIGN.md §6 C21",
 }
 
